@@ -268,6 +268,7 @@ func reflectionGuards(r *core.Run) {
 	})
 	oneofWrapperAllFields(r)
 	registeredRefsRolledBack(r)
+	lookedUpFieldsKindChecked(r, []string{"lib/j5schema", "lib/j5reflect", "internal/codec", "internal/structure", "internal/j5client"}, 1)
 	uniquePropertyNames(r)
 	_ = fmt.Sprintf
 }
